@@ -249,6 +249,180 @@ theorem accept_ok_iff (g : Pipe) (ord : List Nat) : accept g = .ok ord ↔
     · intro h; cases h
     · rintro ⟨_, h, _⟩; exact absurd h hl
 
+/-! ## depth-first post-order of an acyclic, closed graph is accepted -/
+
+/-- `b` is a dependency of `a` -/
+def Edge (deps : Nat → List Nat) (a b : Nat) : Prop := b ∈ deps a
+
+/-- what holds of `(seen, ordered_jobs)` throughout the numbering of a batch whose dependencies are its own jobs -/
+structure GoodSt (deps : Nat → List Nat) (n : Nat) (st : St) : Prop where
+  seen_lt : ∀ x ∈ st.seen, x < n
+  seen_nd : st.seen.Nodup
+  ord_nd : st.ord.Nodup
+  ord_sub : ∀ x ∈ st.ord, x ∈ st.seen
+  fw : ∀ x ∈ st.ord, ∀ d ∈ deps x, d ∈ st.ord ∧ st.ord.idxOf d < st.ord.idxOf x
+
+theorem Ext.grey {a b : St} (h : Ext a b) {x : Nat} (hs : x ∈ b.seen) (ho : x ∉ b.ord) : x ∈ a.seen ∧ x ∉ a.ord := by
+  obtain ⟨new, add, o, s, p, _, _⟩ := h
+  rw [s] at hs
+  rw [o] at ho
+  rcases List.mem_append.1 hs with hadd | hseen
+  · exact absurd (List.mem_append_right _ (p.mem_iff.1 hadd)) ho
+  · exact ⟨hseen, fun hc => ho (List.mem_append_left _ hc)⟩
+
+theorem Ext.seen_len {a b : St} (h : Ext a b) : a.seen.length ≤ b.seen.length := by
+  obtain ⟨_, add, _, s, _, _, _⟩ := h
+  rw [s, List.length_append]; omega
+
+theorem Ext.not_new {a b : St} (h : Ext a b) {x : Nat} (hs : x ∈ a.seen) (ho : x ∉ a.ord) : x ∉ b.ord := by
+  obtain ⟨new, _, o, _, _, _, u⟩ := h
+  rw [o]
+  intro hc
+  rcases List.mem_append.1 hc with hc | hc
+  · exact ho hc
+  · exact u x hc hs
+
+/-- a duplicate-free list of `n` or more numbers below `n` contains every number below `n` -/
+theorem full_of_length {l : List Nat} {n : Nat} (hnd : l.Nodup) (hlt : ∀ x ∈ l, x < n) (hlen : n ≤ l.length) :
+    ∀ j, j < n → j ∈ l := by
+  intro j hj
+  have hsub : l ⊆ List.range n := fun x hx => List.mem_range.2 (hlt x hx)
+  have hsp := List.subperm_of_subset hnd hsub
+  have := hsp.perm_of_length_le (by rw [List.length_range]; exact hlen)
+  exact this.mem_iff.2 (List.mem_range.2 hj)
+
+section dag
+variable (deps : Nat → List Nat) (n : Nat)
+variable (hclosed : ∀ j, j < n → ∀ d ∈ deps j, d < n)
+variable (hacyc : ∀ j, j < n → ¬ Relation.TransGen (Edge deps) j j)
+include hclosed hacyc
+
+/-- statement of the induction on the fuel -/
+def VisitOK (f : Nat) : Prop :=
+  ∀ (j : Nat) (st : St), j < n → GoodSt deps n st →
+    (∀ x ∈ st.seen, x ∉ st.ord → Relation.ReflTransGen (Edge deps) x j) →
+    (j ∈ st.seen → j ∈ st.ord) → n - st.seen.length ≤ f →
+    GoodSt deps n (visit deps f j st) ∧ j ∈ (visit deps f j st).ord
+
+theorem children_ok (f : Nat) (ih : VisitOK deps n f) (j : Nat) (hj : j < n) :
+    ∀ (ps : List Nat) (s : St), (∀ p ∈ ps, p ∈ deps j) → GoodSt deps n s →
+      (∀ x ∈ s.seen, x ∉ s.ord → Relation.ReflTransGen (Edge deps) x j) →
+      j ∈ s.seen → j ∉ s.ord → n - s.seen.length ≤ f →
+      let s' := ps.foldl (fun s p => visit deps f p s) s
+      GoodSt deps n s' ∧ j ∈ s'.seen ∧ j ∉ s'.ord ∧ (∀ x ∈ s.ord, x ∈ s'.ord) ∧ ∀ p ∈ ps, p ∈ s'.ord := by
+  intro ps
+  induction ps with
+  | nil => intro s _ hg _ hjs hjo _; exact ⟨hg, hjs, hjo, fun x hx => hx, by simp⟩
+  | cons p t iht =>
+    intro s hps hg hanc hjs hjo hfuel
+    simp only [List.foldl_cons]
+    have hpd : p ∈ deps j := hps p (List.mem_cons_self)
+    have hp : p < n := hclosed j hj p hpd
+    have hext := visit_ext deps f p s
+    have hpre : p ∈ s.seen → p ∈ s.ord := by
+      intro hps'
+      by_contra hpo
+      have := hanc p hps' hpo
+      exact hacyc j hj (Relation.TransGen.head' hpd this)
+    obtain ⟨hg1, hp1⟩ := ih p s hp hg
+      (fun x hx hxo => (hanc x hx hxo).tail hpd) hpre hfuel
+    have hanc1 : ∀ x ∈ (visit deps f p s).seen, x ∉ (visit deps f p s).ord → Relation.ReflTransGen (Edge deps) x j := by
+      intro x hx hxo
+      obtain ⟨h1, h2⟩ := hext.grey hx hxo
+      exact hanc x h1 h2
+    have hlen := hext.seen_len
+    obtain ⟨r1, r2, r3, r4, r5⟩ := iht (visit deps f p s) (fun q hq => hps q (List.mem_cons_of_mem _ hq)) hg1 hanc1
+      (hext.seen_mono j hjs) (hext.not_new hjs hjo) (by omega)
+    refine ⟨r1, r2, r3, fun x hx => r4 x (hext.ord_mono x hx), ?_⟩
+    intro q hq
+    rcases List.mem_cons.1 hq with rfl | hq
+    · exact r4 _ hp1
+    · exact r5 q hq
+
+theorem visit_ok : ∀ f, VisitOK deps n f := by
+  intro f
+  induction f with
+  | zero =>
+    intro j st hj hg _ hpre hfuel
+    have hjs : j ∈ st.seen := full_of_length hg.seen_nd hg.seen_lt (by omega) j hj
+    exact ⟨hg, hpre hjs⟩
+  | succ f ih =>
+    intro j st hj hg hanc hpre hfuel
+    unfold visit
+    by_cases hjs : j ∈ st.seen
+    · simp only [hjs, if_true]; exact ⟨hg, hpre hjs⟩
+    · simp only [hjs, if_false]
+      have hjo : j ∉ st.ord := fun hc => hjs (hg.ord_sub j hc)
+      have hg0 : GoodSt deps n { st with seen := j :: st.seen } :=
+        { seen_lt := by
+            intro x hx
+            rcases List.mem_cons.1 hx with rfl | hx
+            · exact hj
+            · exact hg.seen_lt x hx
+          seen_nd := List.nodup_cons.2 ⟨hjs, hg.seen_nd⟩
+          ord_nd := hg.ord_nd
+          ord_sub := fun x hx => List.mem_cons_of_mem _ (hg.ord_sub x hx)
+          fw := hg.fw }
+      have hanc0 : ∀ x ∈ (j :: st.seen), x ∉ st.ord → Relation.ReflTransGen (Edge deps) x j := by
+        intro x hx hxo
+        rcases List.mem_cons.1 hx with rfl | hx
+        · exact Relation.ReflTransGen.refl
+        · exact hanc x hx hxo
+      obtain ⟨r1, r2, r3, r4, r5⟩ := children_ok deps n hclosed hacyc f ih j hj (deps j) { st with seen := j :: st.seen }
+        (fun p hp => hp) hg0 hanc0 (List.mem_cons_self) hjo (by simp only [List.length_cons]; omega)
+      simp only at r1 r2 r3 r4 r5
+      refine ⟨?_, List.mem_append_right _ (List.mem_singleton.2 rfl)⟩
+      exact
+        { seen_lt := r1.seen_lt
+          seen_nd := r1.seen_nd
+          ord_nd := by
+            rw [List.nodup_append]
+            refine ⟨r1.ord_nd, List.nodup_cons.2 ⟨List.not_mem_nil, List.nodup_nil⟩, ?_⟩
+            intro x hx y hy hxy
+            simp only [List.mem_singleton] at hy
+            subst hy; subst hxy
+            exact r3 hx
+          ord_sub := by
+            intro x hx
+            rcases List.mem_append.1 hx with hx | hx
+            · exact r1.ord_sub x hx
+            · simp only [List.mem_singleton] at hx; subst hx; exact r2
+          fw := by
+            intro x hx d hd
+            rcases List.mem_append.1 hx with hx | hx
+            · obtain ⟨h1, h2⟩ := r1.fw x hx d hd
+              refine ⟨List.mem_append_left _ h1, ?_⟩
+              rw [List.idxOf_append_of_mem h1, List.idxOf_append_of_mem hx]; exact h2
+            · simp only [List.mem_singleton] at hx; subst hx
+              have hd' := r5 d hd
+              refine ⟨List.mem_append_left _ hd', ?_⟩
+              rw [List.idxOf_append_of_mem hd', List.idxOf_append_of_notMem r3]
+              have := List.idxOf_lt_length_of_mem hd'
+              simp only [List.idxOf_cons, beq_self_eq_true, cond_true]
+              omega }
+
+theorem dfs_fold_good : ∀ (js : List Nat) (st : St), (∀ j ∈ js, j < n) → GoodSt deps n st → Top st →
+    GoodSt deps n (js.foldl (fun s j => visit deps (n + 1) j s) st) := by
+  intro js
+  induction js with
+  | nil => intro st _ hg _; exact hg
+  | cons j t ih =>
+    intro st hjs hg ht
+    simp only [List.foldl_cons]
+    have hext := visit_ext deps (n + 1) j st
+    have hseen : ∀ x ∈ st.seen, x ∈ st.ord := fun x hx => ht.2.mem_iff.1 hx
+    obtain ⟨hg1, _⟩ := visit_ok deps n hclosed hacyc (n + 1) j st (hjs j (List.mem_cons_self)) hg
+      (fun x hx hxo => absurd (hseen x hx) hxo) (hseen j) (by omega)
+    exact ih _ (fun k hk => hjs k (List.mem_cons_of_mem _ hk)) hg1 (ht.of_ext hext)
+
+end dag
+
+theorem dfs_good (g : Pipe) (hclosed : ∀ j, j < g.n → ∀ d ∈ g.deps j, d < g.n)
+    (hacyc : ∀ j, j < g.n → ¬ Relation.TransGen (Edge g.deps) j j) : GoodSt g.deps g.n (dfs g) := by
+  apply dfs_fold_good g.deps g.n hclosed hacyc (List.range g.n) ⟨[], []⟩ (fun j hj => List.mem_range.1 hj)
+  · exact { seen_lt := by simp, seen_nd := List.nodup_nil, ord_nd := List.nodup_nil, ord_sub := by simp, fw := by simp }
+  · exact ⟨List.nodup_nil, List.Perm.refl _⟩
+
 /-! ## the local backend loop -/
 
 /-- a numbering as `accept` admits: no job twice, every dependency of a listed job listed strictly earlier -/
